@@ -77,10 +77,47 @@ def run(F, chk):
     # ---------------- R-C18-d / e ---------------------------------------------------
     rd = chk.rule("R-C18-d", "T3", "expect phase: Upgrade only on the Ok edge of parse_v2_header", floor=1)
     re_ = chk.rule("R-C18-e", "T12", "the parser's unconsumed remainder is not dropped on Upgrade", floor=1)
-    users = [x for x in F.call_sites(PP + "parser::parse_v2_header")]
-    rd.require(users, "no caller of parse_v2_header found")
+    users0 = [x for x in F.call_sites(PP + "parser::parse_v2_header")]
+    rd.require(users0, "no caller of parse_v2_header found")
+    # a private helper that does the parsing for one phase function is analysed as part of that function
+    users = []
+    PHASES = tuple(q for q in F.paths() if q.startswith(PP) and q.endswith(("::readable", "::back_writable", "::writable")) and "{closure" not in q)
+    for owner in sorted({lib.owner_of(F, x[0], stop_at=PHASES).path for x in users0}):
+        fb = lib.flat(F, F.body(owner), keep=(PP + "parser::parse_v2_header",))
+        users += [(fb, bi, t) for bi, t in fb.calls() if callee_of(t) == PP + "parser::parse_v2_header"]
+    rd.require(len(users) >= len({x[0].path for x in users0}) or users, "parse_v2_header call sites lost while splicing helpers")
+    rg = chk.rule("R-C18-g", "T3", "the header phases never wait for more input without having tried to parse what they hold", floor=1)
     for b, bi, t in users:
         rd.fn(b.path); re_.fn(b.path)
+        # R-C18-g: with an edge-triggered socket, `Continue` (wait for the next readable event) is only safe once the
+        # bytes accumulated so far were handed to the parser: a header of a length the staged windows do not hit exactly
+        # (16-byte LOCAL, headers with TLVs) ends on WouldBlock and must still be parsed on that very call
+        conts = result_variant_sites(b, "Continue")
+        keyg = "%s|Continue only after a parse attempt" % b.path
+        rg.fn(b.path)
+        # ... except on the edge where this call read nothing (sz == 0): what is buffered was parsed by the call that read it
+        nothing_read = []
+        reads = [tt["dest"] for _, tt in b.calls() if callee_of(tt).endswith("::socket_read") and isinstance(tt.get("dest"), int)]
+        for sb, f_, t_, atom in guards.bool_switches(b):
+            if atom[0] != "cmp":
+                continue
+            for tgt in (f_, t_):
+                rel = lib.relation_on_edge(b, sb, tgt)
+                if not rel:
+                    continue
+                op, sa, sbb, _ = rel
+                a_sz = bool(sa["locals"] & set(reads))
+                b_sz = bool(sbb["locals"] & set(reads))
+                a_z = any(str(c).startswith("0_") for c in sa["consts"]) and not sa["locals"]
+                b_z = any(str(c).startswith("0_") for c in sbb["consts"]) and not sbb["locals"]
+                if (a_sz and b_z and op in ("Eq", "Le")) or (b_sz and a_z and op in ("Eq", "Ge")):
+                    nothing_read.append((sb, tgt))
+        early = [x for x, _ in conts if x in b.reachable() and not b.dominates(bi, x)
+                 and not (nothing_read and lib.guarded_by(b, x, nothing_read))]
+        if conts and not early:
+            rg.ok(keyg, b.where(bi), "%d Continue site(s), all dominated by parse_v2_header" % len(conts))
+        elif conts:
+            rg.violation(keyg, b.where(early[0]), "the phase can return Continue without having called parse_v2_header on the bytes it holds: a complete header that ended on WouldBlock is never parsed (the session stalls, and later payload bytes are swallowed into the header window)")
         res = t["dest"]
         import C17
         sw = C17.discr_switches(b, res)
